@@ -22,12 +22,30 @@ def slot_empty_guard(slot: str):
     """Guard atoms establishing that no LIVE task is in the slot: `slot is None`,
     `not slot`, `slot.done()`, `not get_tasks()`, `not any(not t.done() for t in
     get_tasks())`, and the false edge of `slot is not None and not slot.done()`."""
+    def quantified_done(e):
+        """('any'|'all', negated) for  any(not t.done() for t in ..get_tasks()/slots..)  /  all(t.done() for t in ...)"""
+        if not (isinstance(e, ast.Call) and call_name(e) in ('any', 'all') and len(e.args) == 1 and
+                isinstance(e.args[0], (ast.GeneratorExp, ast.ListComp)) and len(e.args[0].generators) == 1):
+            return None
+        g = e.args[0].generators[0]
+        if g.ifs or not isinstance(g.target, ast.Name):
+            return None
+        if not (any(call_name(x) == 'get_tasks' for x in ast.walk(g.iter)) or mentions_attr(g.iter, slot)):
+            return None
+        elt = e.args[0].elt
+        neg = False
+        if isinstance(elt, ast.UnaryOp) and isinstance(elt.op, ast.Not):
+            neg, elt = True, elt.operand
+        if isinstance(elt, ast.Call) and call_name(elt) == 'done' and unparse(elt.func.value) == g.target.id:
+            return call_name(e), neg
+        return None
+
     def live_test(e) -> bool:
         # expression that is true iff a live task may be in the slot(s)
         s = unparse(e)
         if isinstance(e, ast.Call) and call_name(e) == 'get_tasks':
             return True
-        if isinstance(e, ast.Call) and call_name(e) == 'any' and 'get_tasks()' in s and '.done()' in s and 'not ' in s:
+        if quantified_done(e) == ('any', True):
             return True
         if isinstance(e, ast.BoolOp) and isinstance(e.op, ast.And) and mentions_attr(e, slot) and '.done()' in s and 'is not None' in s:
             return True
@@ -36,6 +54,8 @@ def slot_empty_guard(slot: str):
     def pred(e, pol):
         if live_test(e):
             return not pol
+        if quantified_done(e) == ('all', False):
+            return pol          # all(t.done() ...) holds: nothing live
         if not mentions_attr(e, slot):
             return False
         a = cmp_atom(e)
@@ -49,11 +69,18 @@ def slot_empty_guard(slot: str):
     return pred
 
 
-def selection_excludes_live(eng: Engine, ck: Check, selector: FuncInfo, slot: str, direction: str) -> bool:
-    """In the selection function, every append of a transfer of `direction` to a
-    result list is guarded by the slot (or all task slots) being empty."""
+def selection_excludes_live(eng: Engine, ck: Check, selector: FuncInfo, slot: str, position: int) -> bool:
+    """In the selection function, every append to the result list returned at tuple `position` is guarded by the slot (or all
+    task slots) being empty."""
+    lists: set[str] = set()
+    for r in [n for n in walk_local(selector.node) if isinstance(n, ast.Return) and n.value is not None]:
+        v = r.value
+        if isinstance(v, ast.Tuple) and position < len(v.elts):
+            lists |= names_in(expand_aliases(selector, v.elts[position])) | names_in(v.elts[position])
+        elif position == 0:
+            lists |= names_in(expand_aliases(selector, v))
     apps = [c for c in calls_in(selector.node) if call_name(c) == 'append' and c.args
-            and isinstance(c.func, ast.Attribute) and direction in unparse(c.func.value)]
+            and isinstance(c.func, ast.Attribute) and isinstance(c.func.value, ast.Name) and c.func.value.id in lists]
     if not apps:
         return False
     ok = True
@@ -61,6 +88,43 @@ def selection_excludes_live(eng: Engine, ck: Check, selector: FuncInfo, slot: st
         if not any(slot_empty_guard(slot)(e, pol) for e, pol, _ in expanded_guards(eng, selector, a)):
             ok = False
     return ok
+
+
+def flows_into_slot(eng: Engine, fn: FuncInfo, call: ast.AST, slots) -> tuple[bool, bool]:
+    """Does the coroutine object created by `call` end up, wrapped by create_task, in a task slot -- directly or through
+    single-use locals, and without a suspension between creating the task and storing its handle?"""
+    node = call
+    as_task = False
+    task_stmt = None
+    for _ in range(6):
+        par = parent(node)
+        if isinstance(par, ast.Call) and call_name(par) == 'create_task' and par.args and par.args[0] is node:
+            as_task = True
+            node = par
+            task_stmt = enclosing_stmt(par)
+            continue
+        if isinstance(par, ast.Await):
+            return False, as_task
+        st = enclosing_stmt(node)
+        if isinstance(st, ast.Assign) and st.value is node:
+            if any(isinstance(t, ast.Attribute) and t.attr in slots for t in st.targets):
+                if not as_task:
+                    return False, False
+                c = eng.cfg(fn)
+                a_, b_ = c.nodes_for(task_stmt), c.nodes_for(st)
+                susp = c.suspension_between(a_[0], b_[0]) if a_ and b_ and task_stmt is not st else None
+                return susp is None, True
+            if len(st.targets) == 1 and isinstance(st.targets[0], ast.Name):
+                nm = st.targets[0].id
+                stores = [n for n in walk_local(fn.node) if isinstance(n, ast.Name) and n.id == nm and isinstance(n.ctx, ast.Store)]
+                uses = [n for n in walk_local(fn.node) if isinstance(n, ast.Name) and n.id == nm and isinstance(n.ctx, ast.Load)]
+                # the handle may additionally be used for add_done_callback(..) on the local
+                flow = [u for u in uses if not (isinstance(parent(u), ast.Attribute) and parent(u).attr == 'add_done_callback')]
+                if len(stores) == 1 and len(flow) == 1:
+                    node = flow[0]
+                    continue
+        return False, as_task
+    return False, as_task
 
 
 def run(eng: Engine, ck: Check):
@@ -73,6 +137,7 @@ def run(eng: Engine, ck: Check):
     creating = []
     for slot in slots:
         for f, st, v in eng.stores_to_attr(slot):
+            v = expand_aliases(f, v) if v is not None else None
             if v is not None and isinstance(v, ast.Call) and call_name(v) == 'create_task':
                 creating.append((slot, f, st, v))
             elif v is not None and not is_none_const(v):
@@ -96,9 +161,11 @@ def run(eng: Engine, ck: Check):
                         if isinstance(n, ast.Assign) and isinstance(n.value, ast.Call):
                             tnames = names_in(n.targets[0])
                             if tnames & srcs:
+                                tg = n.targets[0]
+                                position = next((i for i, t_ in enumerate(tg.elts) if isinstance(t_, ast.Name) and t_.id in srcs), 0) \
+                                    if isinstance(tg, ast.Tuple) else 0
                                 for cal in eng.res.callees(n.value, f):
-                                    direction = 'download' if 'download' in owner else 'upload'
-                                    if selection_excludes_live(eng, ck, cal, slot, direction):
+                                    if selection_excludes_live(eng, ck, cal, slot, position):
                                         via_selection = True
                                         ck.visited(cal)
                     c = eng.cfg(f)
@@ -298,8 +365,6 @@ def run(eng: Engine, ck: Check):
             if how != 'call':
                 continue
             st = enclosing_stmt(call)
-            as_task = isinstance(parent(call), ast.Call) and call_name(parent(call)) == 'create_task'
-            into_slot = isinstance(st, ast.Assign) and any(isinstance(t, ast.Attribute) and t.attr in slots for t in st.targets) \
-                and as_task
+            into_slot, as_task = flows_into_slot(eng, caller, call, slots)
             ck.ob('R-C06-OWNERS', caller, call, f'{f.name} runs only as a task whose handle is stored in a task slot of the transfer',
                   into_slot, f'started by `{unparse(st)[:70]}` ({how})', construct=f'{caller.qualname} starts {f.name}')
